@@ -70,3 +70,11 @@ _WORLD_TXT = {
 }
 for _p, _t in _WORLD_TXT.items():
     META[_p] = dict(engine='seqx-world', design_ref='3, 5.5, 6/' + _p, technique=_WT, level_text=_t, level_note=_WN)
+
+META['C14'] = dict(
+    engine='schedx', design_ref='4, 6/C14',
+    technique='stateless model checking: serialising scheduler over real threads, each running its own libmodule context program; preemption-bounded exhaustive interleaving enumeration with happens-before pruning; TSan/ASan per schedule; differential oracle against the same program run alone',
+    level_text='Two (thorough: three) threads each register a context and run a program touching most of the core API (modules, pub/sub, descriptor source, batching, become, pause/resume, stats/dump/log, task source on the context thread pool, stop/deregister); '
+               'every interleaving at API-call and pthread-operation granularity within the preemption budget is executed under TSan and ASan, and each context\'s observation log must equal the log of the same program run alone. '
+               'A second harness operates a module from a foreign thread (holding another context, or none): all 25 module entry points must fail with a permission error and leave the owner\'s state, sources, callbacks, mailbox and module count untouched; cross-context tell/pill/lookup are refused.',
+    level_note='Scheduling points are between API calls and at pthread operations only; races inside one API call are found by TSan happens-before analysis on each schedule, not by interleaving inside the call. Real time (not virtual) in this harness; no timers are used.')
